@@ -777,7 +777,32 @@ def _lenient_class(why):
     a well-formed one, and that the decoder never looked at)."""
     if why in ("length-exceeds-enclosing", "primitive-length"):
         return why
+    if why in ("batch-count-exceeds-items", "not-a-batch-item") or why.startswith("header") \
+            or why.startswith("message") or why.startswith("top"):
+        # message-level shape (the announced batch items are not all there / are not batch items):
+        # a different mechanism than surplus bytes inside a payload structure
+        return "message-shape|" + why
     return "undecodable-bytes-inside-structure"
+
+
+_OPNAMES = {1: "Create", 2: "CreateKeyPair", 3: "Register", 4: "Rekey", 5: "DeriveKey", 8: "Locate", 9: "Check",
+            10: "Get", 11: "GetAttributes", 12: "GetAttributeList", 13: "AddAttribute", 14: "ModifyAttribute",
+            15: "DeleteAttribute", 16: "ObtainLease", 17: "GetUsageAllocation", 18: "Activate", 19: "Revoke",
+            20: "Destroy", 21: "Archive", 22: "Recover", 24: "Query", 25: "Cancel", 26: "Poll",
+            29: "RekeyKeyPair", 30: "DiscoverVersions", 31: "Encrypt", 32: "Decrypt", 33: "Sign",
+            34: "SignatureVerify", 35: "MAC", 36: "MACVerify", 0x2B: "SetAttribute"}
+
+
+def _frame_operation(fr):
+    """Name of the first Operation enumeration found in the frame bytes (spec codes), for the
+    bucket key: surplus bytes tolerated by one payload reader are a different root cause than
+    surplus bytes tolerated by another."""
+    pat = bytes.fromhex("42005c0500000004")
+    i = bytes(fr).find(pat)
+    if i < 0 or i + 12 > len(fr):
+        return "?"
+    code = int.from_bytes(fr[i + 8:i + 12], "big")
+    return _OPNAMES.get(code, "0x%x" % code)
 
 
 def _envelope_key(problem):
@@ -826,7 +851,10 @@ def check_frames(stream, obs, tail_off, B, info):
         if before is not None and after is not None:
             changed = _store_changed(before, after)
         if lenient:
-            add("C12|malformed-accepted|" + _lenient_class(J["why"]),
+            cls = _lenient_class(J["why"])
+            if cls == "undecodable-bytes-inside-structure":
+                cls += "|op=" + _frame_operation(fr)
+            add("C12|malformed-accepted|" + cls,
                 "the library decoded (and the session processed) a frame that is not well-formed "
                 "TTLV: %s; store changed: %s; answer %s\n%s"
                 % (J["why"], changed or "no", [_brief(r) for r in sent], ctx))
